@@ -22,6 +22,9 @@ type (
 		Payload Value // nil = none
 	}
 	SliceV struct{ Es []Value }
+	// DictV and BufV are the two mutable library values (reference semantics, like the Go implementations)
+	DictV struct{ M map[string]Value }
+	BufV  struct{ B *strings.Builder }
 	// Closure: a function value.  Bound holds already supplied (evaluated) arguments.
 	Closure struct {
 		Name      string
@@ -712,4 +715,24 @@ func init() {
 		return SliceV{out}
 	})
 	reg("strings.IsEmpty", 1, func(ev *Evaluator, a []Value) Value { return a[0].(string) == "" })
+	reg("dict.New", 1, func(ev *Evaluator, a []Value) Value { return &DictV{M: map[string]Value{}} })
+	reg("dict.Add", 3, func(ev *Evaluator, a []Value) Value { a[0].(*DictV).M[a[1].(string)] = a[2]; return UnitV{} })
+	reg("dict.Item", 2, func(ev *Evaluator, a []Value) Value {
+		v, ok := a[0].(*DictV).M[a[1].(string)]
+		if !ok {
+			ood("dict.Item of a missing key")
+		}
+		return v
+	})
+	reg("dict.ContainsKey", 2, func(ev *Evaluator, a []Value) Value { _, ok := a[0].(*DictV).M[a[1].(string)]; return ok })
+	reg("dict.TryFind", 2, func(ev *Evaluator, a []Value) Value {
+		v, ok := a[0].(*DictV).M[a[1].(string)]
+		if !ok {
+			v = int64(0)
+		}
+		return TupleV{[]Value{v, ok}}
+	})
+	reg("buf.New", 1, func(ev *Evaluator, a []Value) Value { return &BufV{B: &strings.Builder{}} })
+	reg("buf.Write", 2, func(ev *Evaluator, a []Value) Value { a[0].(*BufV).B.WriteString(a[1].(string)); return UnitV{} })
+	reg("buf.String", 1, func(ev *Evaluator, a []Value) Value { return a[0].(*BufV).B.String() })
 }
